@@ -72,6 +72,10 @@ type Scenario struct {
 	Prior string `json:"prior,omitempty"`
 	// CustomParse: network clients only: build with NewClient and a wrapped ParseResponseFunc so parser entry is observable
 	CustomParse bool `json:"custom_parse,omitempty"`
+	// Again: after the judged call has returned, the same call is made once more on the same client object with a background context and
+	// a transport that delivers the whole reply in one read (Outcome.AgainErr / AgainHung / AgainElapsed): a failed call leaves the
+	// client usable, so the next call returns too
+	Again bool `json:"again,omitempty"`
 	// Follow: after a successful call, the same request is made once more on the same client and answered by a device
 	// with a different memory image; the first response is re-encoded before and after (Outcome.RespAtReturn / RespAfterFollow)
 	Follow bool `json:"follow,omitempty"`
@@ -184,6 +188,11 @@ type Outcome struct {
 	// Follow: re-encodings of Resp taken when the call returned and after a later call on the same client
 	RespAtReturn, RespAfterFollow []byte
 	FollowErr                     error
+	// Again: what the repeated call did
+	AgainErr     error
+	AgainHung    bool
+	AgainDone    bool
+	AgainElapsed time.Duration
 	// Prior: re-encodings of the response the earlier call returned (if it succeeded), taken when it returned and after the judged call
 	PriorRespAtReturn, PriorRespAfter []byte
 }
@@ -451,6 +460,31 @@ func Run(sc Scenario) (out Outcome) {
 	out.WriteSeqs = append([]int(nil), script.WriteSeqs...)
 	if rec != nil {
 		out.Hooks = append([]HookCall(nil), rec.Calls...)
+	}
+	if sc.Again && !out.Hung && out.Panic == nil {
+		var whole []byte
+		if req != nil {
+			whole = device.New(0xA6A1).Answer(f, out.ReqBytes)
+		}
+		script.Reset(whole, []xport.Event{{Kind: "data", N: len(whole)}}, false)
+		ach := make(chan error, 1)
+		astart := time.Now()
+		go func() {
+			defer func() {
+				if p := recover(); p != nil {
+					ach <- fmt.Errorf("panic: %v", p)
+				}
+			}()
+			_, err := do(context.Background(), req)
+			ach <- err
+		}()
+		select {
+		case out.AgainErr = <-ach:
+			out.AgainDone = true
+		case <-time.After(HangCeiling):
+			out.AgainHung = true
+		}
+		out.AgainElapsed = time.Since(astart)
 	}
 	if sc.Follow && !out.Hung && out.Panic == nil && out.Err == nil && !cat.IsNilValue(out.Resp) && req != nil {
 		out.RespAtReturn = append([]byte(nil), out.Resp.Bytes()...)
